@@ -254,7 +254,8 @@ class AbstractExcelInPython(ABC):
         )
 
     def _match(self, lookup_value, lookup_array: List, match_type: int = 0):
-        lookup_value_type = int if isinstance(lookup_value, self.EmptyCell) else type(lookup_value)
+        # Числа (int и float) - один тип значений, как в excel
+        lookup_value_type = (int, float) if isinstance(lookup_value, (int, float)) else type(lookup_value)
 
         match match_type:
             case 0:
